@@ -311,7 +311,16 @@ def explore(make, trace, bound, check, limit=None, stats=None, roots=None, child
             stats['capped'] = True
             break
         bodies, cx = make()
-        x = Execution(bodies, trace, prefix, expect).run()
+        try:
+            x = Execution(bodies, trace, prefix, expect).run()
+        except HarnessError as e:
+            if 'replay diverged' not in str(e):
+                raise
+            # the same choices led somewhere else than in the parent execution: the code under test carries state from one
+            # execution to the next (the harness builds fresh objects every time).  That sub-tree cannot be enumerated
+            # soundly; it is skipped and counted, and the caller must not report a clean verdict (see vf.run).
+            stats['diverged'] = stats.get('diverged', 0) + 1
+            continue
         stats['executions'] += 1
         stats['points_max'] = max(stats['points_max'], len(x.points))
         if x.deadlock:
